@@ -1454,7 +1454,7 @@ void World::opStatUpd(const Item& op)
     sp.len = body.size();
     sp.junk = mix64(static_cast<uint64_t>(op.get("id", 1)) * 77 + 1);
     const uint16_t dev = static_cast<uint16_t>(op.get("dev", 1));
-    lib::PacketRef ref = lib::makePacket(sp, dev, static_cast<uint8_t>(op.get("stream", 0)));
+    lib::PacketRef ref = lib::makePacket(sp, dev, static_cast<uint8_t>(op.get("stream", 0)), static_cast<uint16_t>(op.get("seq", 0)));
     lib::Obs o = lib::observe(ref, false);
     devAlphabet.insert(dev);
     if (model::RefStatus::isIf(o) && o.payload.size() >= 4)
